@@ -11,6 +11,7 @@ let rec expr_of (x : sx) : expr =
   | A "X" -> EX
   | A "F" -> ELit F | A "T" -> ELit T
   | L [A "N"; _; _; _] -> ELit (bdd_raw x)
+  | L [A "R"; _; _; _] -> ERaw (bdd_raw x)
   | L [A "tt"; L vars; num] -> ELit (build_tt (List.map nat_atom vars) (n_of_dec (atom num)) N0)
   | L [A "var"; v] -> EVar (nat_atom v)
   | L [A "const"; b] -> EConst (atom b = "1")
